@@ -71,5 +71,17 @@ func (bi *BasmInstance) bodyMacros(body *bmline.BasmBody) error {
 }
 
 func (bi *BasmInstance) expandMacro(macro *BasmMacro, line *bmline.BasmLine) []*bmline.BasmLine {
-	return macro.macroBody.Lines
+	// Every expansion gets its own copy of the macro lines
+	result := make([]*bmline.BasmLine, len(macro.macroBody.Lines))
+	for i, macroLine := range macro.macroBody.Lines {
+		result[i] = macroLine.Copy()
+	}
+	// The labels of the calling line belong to the first line of the expansion
+	if symbols := line.GetMeta("symbol"); symbols != "" && len(result) > 0 {
+		if ownSymbols := result[0].GetMeta("symbol"); ownSymbols != "" {
+			symbols = symbols + ":" + ownSymbols
+		}
+		result[0].BasmMeta = result[0].SetMeta("symbol", symbols)
+	}
+	return result
 }
